@@ -40,6 +40,27 @@ def handle : Handler := fun op j =>
           match st.done.lookup i with | some (_, sd) => some (Json.arr #[toJson i, toJson sd]) | none => none)).toArray),
       ("reference_draws", toJson rs),
       ("reference_tasks", Json.arr (rtasks.map (fun t => Json.arr #[toJson t.idx, toJson t.seed])).toArray)])
+  | "seeds.run" => do
+    -- a whole run: `n_ops` operators (counter generators), a population of `n` individuals, applications [{op, decisions, schedule}];
+    -- an individual is the list of the seeds (draw positions in its operator's stream, tagged with the operator) its tasks received
+    let nOps ← getNat j "n_ops"
+    let n ← getNat j "n"
+    let apps ← (← getArr j "seq").toList.mapM (fun a => do
+      let k ← getNat a "op"
+      let ds ← (fromJson? (← getObj a "decisions") : Except String (List Bool))
+      let acts ← parseActs (← getObj a "schedule")
+      pure (k, ds, acts))
+    -- decision of every draw position of every operator's stream (its applications in order)
+    let ddOf (k : Nat) : List Bool := (apps.filter (fun a => a.1 == k)).flatMap (fun a => drawDecisions a.2.1)
+    let ops : List (Op Nat Nat (List (Nat × Nat))) := (List.range nOps).map (fun k =>
+      { R := counter, mutate := fun u => (ddOf k).getD u false, task := fun x sd => (k, sd) :: x })
+    let st0 : RunSt Nat (List (Nat × Nat)) := { gens := List.replicate nOps 0, pop := List.replicate n [] }
+    let seq := apps.map (fun a => (a.1, a.2.2))
+    let fin := runWith ops st0 seq
+    let ref := runRef ops st0 (seq.map (·.1))
+    let complete := decide (fin.gens = ref.gens) && decide (fin.pop = ref.pop)
+    pure (Json.mkObj [("schedule_run_equals_reference", toJson complete), ("gens", toJson ref.gens),
+      ("pop", Json.arr (ref.pop.map (fun x => Json.arr (x.reverse.map (fun e => Json.arr #[toJson e.1, toJson e.2])).toArray)).toArray)])
   | _ => throw s!"unknown op {op}"
 
 end QVerif.Driver.Seeds
